@@ -1,6 +1,6 @@
 (* Extract.v — extraction of the executable model to OCaml (ExtrOcamlBasic only: bool, option, unit, list,
    prod, sumbool, sumor mapped to OCaml's; N, Z, positive, nat stay the extracted inductive types). *)
-Require Import Base Cbor EncoderModel Timestamp DecoderModel Schema.
+Require Import Base Cbor EncoderModel Timestamp DecoderModel Schema Block Exporter.
 Require Extraction.
 Require Import ExtrOcamlBasic.
 Extraction Blacklist String List Nat Int.
@@ -13,4 +13,6 @@ Extraction "model.ml"
   read_bytestring read_textstring read_array_start read_map_start read_break skip_item
   write_val read_val write_struct has_ty StorageHints StorageParameters CollectionParameters BlockParameters FilePreamble ClassType
   QueryResponseSignature Question RR MalformedMessageData ResponseProcessingData QueryResponseExtended BlockPreamble
-  BlockStatistics QueryResponse AddressEventCount MalformedMessage BlockTables Block.
+  BlockStatistics QueryResponse AddressEventCount MalformedMessage BlockTables Schema.Block
+  val_eqb tadd add_qr add_aec add_mm blk_val blk_new item_count x_new write_block write_block_ext buffer_qr buffer_aec buffer_mm rotate destroy
+  add_block_parameters set_active reader_open reader_next read_file gen_qr gen_aec gen_mm.
